@@ -2,6 +2,7 @@ SPECIFICATION Spec
 CONSTANTS
   Users = {"u1"}
   Flags = {"R", "F"}
+  FlagSets = {{"R"}, {"F"}, {"R", "F"}}
   MaxCalls = 4
   MaxFaults = 1
   MaxCloses = 1
